@@ -460,27 +460,31 @@ def cbStep (acc : St × List Spawn) (sid : Nat) : St × List Spawn :=
   match s.tasks.find? (·.sid == sid) with
   | none => (s, sps)
   | some t =>
-    if t.cbUnsched then
+    if !t.inTable then (s, sps)
+    else if t.cbUnsched then
       (if t.nsim ≠ 0 then s.upd { t with active := false } else unsched s { t with active := false }, sps)
     else
       let (s', sp) := taskCb s t
       (s', sps ++ sp)
 
+theorem runPending_eq (s : St) (pend : List Nat) : runPending s pend = pend.foldl cbStep (s, []) := rfl
+
 theorem tick_eq (s : St) (now : Nat) :
-    tick s now = ((reify now (s.tasks.length + 1) { s with now := now } []).2.foldl cbStep
-      ((reify now (s.tasks.length + 1) { s with now := now } []).1, [])) := rfl
+    tick s now = runPending (reify now (s.tasks.length + 1) { s with now := now } []).1
+      (reify now (s.tasks.length + 1) { s with now := now } []).2 := rfl
 
 /-- the spawn a watcher's callback makes -/
 def spawnsOf (fail : Bool) (t : DTask) : List Spawn :=
-  if t.cbUnsched || fail then []
+  if !t.inTable || t.cbUnsched || fail then []
   else [{ uid := t.uid, nd := !mayRun t, durS := durSecs t.dur, asUid := t.owner }]
 
 /-- the callback starts a real child -/
-def runs (fail : Bool) (t : DTask) : Bool := !t.cbUnsched && mayRun t && !fail
+def runs (fail : Bool) (t : DTask) : Bool := t.inTable && !t.cbUnsched && mayRun t && !fail
 
 /-- the record after its callback; `none`: the task was unscheduled -/
 def cbTask (fail : Bool) (t : DTask) : Option DTask :=
-  if t.cbUnsched then (if t.nsim ≠ 0 then some { t with active := false } else none)
+  if !t.inTable then some t
+  else if t.cbUnsched then (if t.nsim ≠ 0 then some { t with active := false } else none)
   else if runs fail t then some { t with nsim := t.nsim + 1 }
   else if !t.resched && t.nsim == 0 then none else some t
 
@@ -526,6 +530,8 @@ theorem unsched_frame (s : St) (t : DTask) : Frame s (unsched s t) := by
 
 theorem cbTask_sid {fail : Bool} {t y : DTask} (h : cbTask fail t = some y) : y.sid = t.sid := by
   unfold cbTask at h
+  split at h
+  · cases h; rfl
   split at h
   · split at h
     · cases h; rfl
@@ -573,86 +579,98 @@ theorem cbStep_spec (s : St) (sps : List Spawn) (sid : Nat) (hu : SidU s.tasks) 
       by_cases h : x.sid = sid
       · simp [h, h1 x hx h]
       · simp [h, h2 x h]
+    by_cases hit : t.inTable = false
+    · refine ⟨s, ?_, ?_, ?_, Frame.refl s⟩
+      · simp [cbStep, hg', hit, hit, spawnsOf]
+      · conv => lhs; rw [← List.filterMap_some (l := s.tasks)]
+        apply keyc
+        · intro x hx h
+          have : x = t := hu.inj hx htm (h.trans hts.symm)
+          subst this
+          simp [cbTask, hit]
+        · intro x h; rfl
+      · simp [cbKids, runs, hit]
+    have hit : t.inTable = true := by simpa using hit
     by_cases hcb : t.cbUnsched = true
     · by_cases hn : t.nsim = 0
       · refine ⟨unsched s { t with active := false }, ?_, ?_, ?_, unsched_frame _ _⟩
-        · simp [cbStep, hg', hcb, hn, spawnsOf]
+        · simp [cbStep, hg', hit, hcb, hn, spawnsOf]
         · rw [unsched_tasks]
           apply keyc
           · intro x hx h
             have : x = t := hu.inj hx htm (h.trans hts.symm)
             subst this
-            simp [cbTask, hcb, hn, hts]
+            simp [cbTask, hit, hcb, hn, hts]
           · intro x h; simp [hts, h]
-        · simp [unsched_children, cbKids, runs, hcb]
+        · simp [unsched_children, cbKids, runs, hit, hcb]
       · refine ⟨s.upd { t with active := false }, ?_, ?_, ?_, ⟨rfl, rfl, rfl, rfl, rfl, rfl, rfl⟩⟩
-        · simp [cbStep, hg', hcb, hn, spawnsOf]
+        · simp [cbStep, hg', hit, hcb, hn, spawnsOf]
         · rw [upd_tasks_filterMap]
           apply keyc
           · intro x hx h
             have : x = t := hu.inj hx htm (h.trans hts.symm)
             subst this
-            simp [cbTask, hcb, hn, hts]
+            simp [cbTask, hit, hcb, hn, hts]
           · intro x h; simp [hts, h]
-        · simp [St.upd, cbKids, runs, hcb]
+        · simp [St.upd, cbKids, runs, hit, hcb]
     · have hcb' : t.cbUnsched = false := by simpa using hcb
       by_cases hm : mayRun t = true
       · by_cases hf : s.spawnFail = true
         · by_cases hz : (!t.resched && t.nsim == 0) = true
           · refine ⟨unsched s t, ?_, ?_, ?_, unsched_frame _ _⟩
-            · simp [cbStep, hg', hcb', taskCb, hm, hf, hz, spawnsOf]
+            · simp [cbStep, hg', hit, hcb', taskCb, hm, hf, hz, spawnsOf]
             · rw [unsched_tasks]
               apply keyc
               · intro x hx h
                 have : x = t := hu.inj hx htm (h.trans hts.symm)
                 subst this
-                simp [cbTask, hcb', runs, hf, hz, hts]
+                simp [cbTask, hit, hcb', runs, hf, hz, hts]
               · intro x h; simp [hts, h]
-            · simp [unsched_children, cbKids, runs, hf]
+            · simp [unsched_children, cbKids, runs, hit, hf]
           · refine ⟨s, ?_, ?_, ?_, Frame.refl s⟩
-            · simp [cbStep, hg', hcb', taskCb, hm, hf, hz, spawnsOf]
+            · simp [cbStep, hg', hit, hcb', taskCb, hm, hf, hz, spawnsOf]
             · conv => lhs; rw [← List.filterMap_some (l := s.tasks)]
               apply keyc
               · intro x hx h
                 have : x = t := hu.inj hx htm (h.trans hts.symm)
                 subst this
-                simp [cbTask, hcb', runs, hf, hz]
+                simp [cbTask, hit, hcb', runs, hf, hz]
               · intro x h; rfl
-            · simp [cbKids, runs, hf]
+            · simp [cbKids, runs, hit, hf]
         · have hf' : s.spawnFail = false := by simpa using hf
           refine ⟨({ s with children := s.children ++ [({ sid := t.sid, live := true } : Child)] } : St).upd
               { t with nsim := t.nsim + 1 }, ?_, ?_, ?_, ⟨rfl, rfl, rfl, rfl, rfl, rfl, rfl⟩⟩
-          · simp [cbStep, hg', hcb', taskCb, hm, hf', spawnsOf]
+          · simp [cbStep, hg', hit, hcb', taskCb, hm, hf', spawnsOf]
           · rw [upd_tasks_filterMap]
             apply keyc
             · intro x hx h
               have : x = t := hu.inj hx htm (h.trans hts.symm)
               subst this
-              simp [cbTask, hcb', runs, hf', hm, hts]
+              simp [cbTask, hit, hcb', runs, hf', hm, hts]
             · intro x h; simp [hts, h]
-          · simp [St.upd, cbKids, runs, hcb', hm, hf']
+          · simp [St.upd, cbKids, runs, hit, hcb', hm, hf']
       · have hm' : mayRun t = false := by simpa using hm
         by_cases hz : (!t.resched && t.nsim == 0) = true
         · refine ⟨unsched s t, ?_, ?_, ?_, unsched_frame _ _⟩
-          · by_cases hf : s.spawnFail = true <;> simp [cbStep, hg', hcb', taskCb, hm', hf, hz, spawnsOf]
+          · by_cases hf : s.spawnFail = true <;> simp [cbStep, hg', hit, hcb', taskCb, hm', hf, hz, spawnsOf]
           · rw [unsched_tasks]
             apply keyc
             · intro x hx h
               have : x = t := hu.inj hx htm (h.trans hts.symm)
               subst this
-              simp [cbTask, hcb', runs, hm', hz, hts]
+              simp [cbTask, hit, hcb', runs, hm', hz, hts]
             · intro x h; simp [hts, h]
-          · simp [unsched_children, cbKids, runs, hm']
+          · simp [unsched_children, cbKids, runs, hit, hm']
         · refine ⟨s, ?_, ?_, ?_, Frame.refl s⟩
-          · by_cases hf : s.spawnFail = true <;> simp [cbStep, hg', hcb', taskCb, hm', hf, hz, spawnsOf]
+          · by_cases hf : s.spawnFail = true <;> simp [cbStep, hg', hit, hcb', taskCb, hm', hf, hz, spawnsOf]
           · conv => lhs; rw [← List.filterMap_some (l := s.tasks)]
             apply keyc
             · intro x hx h
               have : x = t := hu.inj hx htm (h.trans hts.symm)
               subst this
-              simp [cbTask, hcb', runs, hm', hz]
+              simp [cbTask, hit, hcb', runs, hm', hz]
             · intro x h; rfl
-          · simp [cbKids, runs, hm']
+          · simp [cbKids, runs, hit, hm']
 
 theorem flatMap_congr' {α β} {f g : α → List β} : ∀ {l : List α}, (∀ x ∈ l, f x = g x) →
     l.flatMap f = l.flatMap g := by
@@ -718,10 +736,11 @@ theorem cbFold_spec : ∀ (pend : List Nat) (s : St) (sps : List Spawn), SidU s.
       exact get_congr_of_tasks (fun e => hnd.1 (by rw [← e]; exact hx)) ht1
     refine ⟨s2, ?_, ?_, ?_, hf1.trans hf2⟩
     · rw [List.foldl_cons, h1, h2, List.flatMap_cons, List.append_assoc]
-      congr 2
-      apply flatMap_congr'
-      intro x hx
-      rw [hget x hx, hf1.spawnFail]
+      have : ∀ x ∈ rest, (match s1.get x with | some t => spawnsOf s1.spawnFail t | none => [])
+          = (match s.get x with | some t => spawnsOf s.spawnFail t | none => []) := by
+        intro x hx
+        rw [hget x hx, hf1.spawnFail]
+      rw [flatMap_congr' this]
     · rw [ht2, ht1, List.filterMap_filterMap, hf1.spawnFail]
       apply filterMap_congr'
       intro x hx
@@ -731,97 +750,126 @@ theorem cbFold_spec : ∀ (pend : List Nat) (s : St) (sps : List Spawn), SidU s.
         | none => rfl
         | some y =>
           have hy := cbTask_sid hc
-          have : rest.contains y.sid = false := by
-            rw [hy, h]; simpa using hnd.1
+          have : y.sid ∉ rest := by
+            rw [hy, h]; exact hnd.1
           simp [this]
       · have h' : (x.sid == sid) = false := by simpa using h
         simp only [h', Bool.false_eq_true, if_false, Option.bind_some, List.contains_cons, Bool.false_or]
     · rw [hc2, hc1, List.flatMap_cons, List.append_assoc]
-      congr 2
-      apply flatMap_congr'
-      intro x hx
-      rw [hget x hx, hf1.spawnFail]
+      have : ∀ x ∈ rest, (match s1.get x with | some t => cbKids s1.spawnFail t | none => [])
+          = (match s.get x with | some t => cbKids s.spawnFail t | none => []) := by
+        intro x hx
+        rw [hget x hx, hf1.spawnFail]
+      rw [flatMap_congr' this]
 
-/-! ### one iteration in closed form -/
 
-/-- what one iteration does to a task record; `none`: it leaves the table -/
-def tickTask (now : Nat) (fail : Bool) (t : DTask) : Option DTask :=
-  if isDue now t then cbTask fail (rearm now t) else some t
+/-! ### `chld_cb` in closed form -/
 
-def tickSpawns (now : Nat) (fail : Bool) (t : DTask) : List Spawn :=
-  if isDue now t then spawnsOf fail (rearm now t) else []
+/-- the children after the `k`-th has been reaped -/
+def kill (l : List Child) (k : Nat) : List Child :=
+  l.zipIdx.map fun ((c : Child), (i : Nat)) => if i == k then ({ c with live := false } : Child) else c
 
-def tickKids (now : Nat) (fail : Bool) (t : DTask) : List Child :=
-  if isDue now t then cbKids fail (rearm now t) else []
+/-- `chld_cb` on the record `x`: `ex` is the `sid` of the reaped child, `p`: the record's periodic callback
+is pending in this iteration -/
+def exitTask (ex : Nat) (p : Bool) (x : DTask) : Option DTask :=
+  if x.sid == ex then
+    (if !x.inTable then (if x.nsim - 1 == 0 then none else some { x with nsim := x.nsim - 1 })
+     else if !x.resched && x.nsim - 1 == 0 && !p then none else some { x with nsim := x.nsim - 1 })
+  else some x
 
-theorem tick_spec (s : St) (now : Nat) (hu : SidU s.tasks) :
-    ∃ L : List Nat, L.Nodup ∧ (∀ x, x ∈ L ↔ ∃ t ∈ s.tasks, isDue now t = true ∧ t.sid = x)
-      ∧ (tick s now).2 = L.flatMap (fun sid => match s.get sid with | some t => tickSpawns now s.spawnFail t | none => [])
-      ∧ (tick s now).1.tasks = s.tasks.filterMap (tickTask now s.spawnFail)
-      ∧ (tick s now).1.children = s.children
-          ++ L.flatMap (fun sid => match s.get sid with | some t => tickKids now s.spawnFail t | none => [])
-      ∧ Frame { s with now := now } (tick s now).1 := by
-  have hu0 : SidU ({ s with now := now } : St).tasks := hu
-  obtain ⟨L, hr, hnd, hmem⟩ := reify_spec now (s.tasks.length + 1) { s with now := now } [] hu0
-    (by intro t _ h; cases h)
-    (by have := List.length_filter_le (isDue now) s.tasks; simp only []; omega)
-  rw [tick_eq, hr]
-  simp only [List.nil_append]
-  have hu1 : SidU (s.tasks.map (fun t => if isDue now t then rearm now t else t)) := by
-    unfold SidU at hu ⊢
-    rw [List.map_map]
-    have : ((fun x : DTask => x.sid) ∘ fun t => if isDue now t then rearm now t else t)
-        = fun x : DTask => x.sid := by
-      funext x
-      simp only [Function.comp]
-      split <;> simp [rearm_sid]
-    rw [this]; exact hu
-  obtain ⟨s', h2, ht2, hc2, hf2⟩ := cbFold_spec L
-    ({ s with now := now, tasks := s.tasks.map (fun t => if isDue now t then rearm now t else t) } : St) [] hu1 hnd
-  rw [h2]
-  -- look-up in the re-armed table
-  have hget : ∀ x ∈ L, ∃ t, s.get x = some t ∧ isDue now t = true ∧
-      ({ s with now := now, tasks := s.tasks.map (fun t => if isDue now t then rearm now t else t) } : St).get x
-        = some (rearm now t) := by
-    intro x hx
-    obtain ⟨t, ht, hd, hs⟩ := (hmem x).mp hx
-    refine ⟨t, hs ▸ get_of_mem hu ht, hd, ?_⟩
-    rw [get_eq_some_iff hu1]
-    refine ⟨?_, by rw [rearm_sid]; exact hs⟩
-    simp only [List.mem_map]
-    exact ⟨t, ht, by simp [hd]⟩
-  refine ⟨L, hnd, hmem, ?_, ?_, ?_, ⟨hf2.me, hf2.users, hf2.now, hf2.nextSid, hf2.perseq, hf2.files, hf2.spawnFail⟩⟩
-  · simp only [List.nil_append]
-    apply flatMap_congr'
-    intro x hx
-    obtain ⟨t, h1, hd, h3⟩ := hget x hx
-    rw [h1, h3]
-    simp [tickSpawns, hd]
-  · simp only []
-    rw [ht2]
-    simp only []
-    rw [List.filterMap_map]
+theorem exitTask_sid {ex : Nat} {p : Bool} {x y : DTask} (h : exitTask ex p x = some y) : y.sid = x.sid := by
+  unfold exitTask at h
+  split at h
+  · split at h
+    · split at h
+      · cases h
+      · cases h; rfl
+    · split at h
+      · cases h
+      · cases h; rfl
+  · cases h; rfl
+
+theorem upd_del_tasks (s : St) (t : DTask) : ((s.upd t).del t.sid).tasks = (s.del t.sid).tasks := by
+  rw [del_tasks_filterMap, upd_tasks_filterMap, List.filterMap_filterMap, del_tasks_filterMap]
+  apply filterMap_congr'
+  intro x _
+  by_cases h : x.sid = t.sid <;> simp [h]
+
+/-- the `k`-th child is not there or has been reaped already -/
+theorem exit_none (s : St) (k : Nat) (pend : List Nat)
+    (h : ∀ c, s.children[k]? = some c → c.live = false) : childExitPending s k pend = (s, false) := by
+  unfold childExitPending
+  cases hc : s.children[k]? with
+  | none => rfl
+  | some c => simp [h c hc]
+
+theorem exit_spec (s : St) (k : Nat) (pend : List Nat) (hu : SidU s.tasks) (c : Child)
+    (hc : s.children[k]? = some c) (hl : c.live = true) :
+    (childExitPending s k pend).1.tasks = s.tasks.filterMap (fun x => exitTask c.sid (pend.contains x.sid) x)
+    ∧ (childExitPending s k pend).1.children = kill s.children k
+    ∧ Frame s (childExitPending s k pend).1 := by
+  unfold childExitPending
+  simp only [hc, hl, Bool.not_true, Bool.false_eq_true, if_false]
+  have hk : (s.children.zipIdx.map fun ((c : Child), (i : Nat)) =>
+      if i == k then ({ c with live := false } : Child) else c) = kill s.children k := rfl
+  rw [hk]
+  cases hg : s.get c.sid with
+  | none =>
+    have hg' : s.tasks.find? (·.sid == c.sid) = none := hg
+    simp only [hg']
+    refine ⟨?_, rfl, ⟨rfl, rfl, rfl, rfl, rfl, rfl, rfl⟩⟩
+    rw [get_eq_none_iff] at hg
+    conv => lhs; rw [← List.filterMap_some (l := s.tasks)]
     apply filterMap_congr'
     intro x hx
-    simp only [Function.comp, tickTask]
-    by_cases hd : isDue now x = true
-    · have : x.sid ∈ L := (hmem _).mpr ⟨x, hx, hd, rfl⟩
-      simp [hd, rearm_sid, this]
-    · have hd' : isDue now x = false := by simpa using hd
-      have : x.sid ∉ L := by
-        intro hm
-        obtain ⟨t, ht, hdt, hs⟩ := (hmem _).mp hm
-        rw [hu.inj ht hx hs] at hdt
-        rw [hdt] at hd'; cases hd'
-      simp [hd', this]
-  · simp only []
-    rw [hc2]
-    simp only []
-    congr 1
-    apply flatMap_congr'
-    intro x hx
-    obtain ⟨t, h1, hd, h3⟩ := hget x hx
-    rw [h1, h3]
-    simp [tickKids, hd]
+    simp [exitTask, hg x hx]
+  | some t =>
+    have hg' : s.tasks.find? (·.sid == c.sid) = some t := hg
+    obtain ⟨htm, hts⟩ := get_some_mem hg
+    simp only [hg']
+    have keyc : ∀ (f : DTask → Option DTask),
+        (f t = exitTask c.sid (pend.contains t.sid) t) →
+        (∀ x, x.sid ≠ c.sid → f x = some x) →
+        s.tasks.filterMap f = s.tasks.filterMap (fun x => exitTask c.sid (pend.contains x.sid) x) := by
+      intro f h1 h2
+      apply filterMap_congr'
+      intro x hx
+      by_cases h : x.sid = c.sid
+      · have : x = t := hu.inj hx htm (h.trans hts.symm)
+        subst this; exact h1
+      · rw [h2 x h]; simp [exitTask, h]
+    by_cases hit : t.inTable = true
+    · by_cases hz : (!t.resched && t.nsim - 1 == 0 && !(pend.contains t.sid)) = true
+      · simp only [hit, hz, Bool.not_true, Bool.false_eq_true, if_false, if_true]
+        refine ⟨?_, ?_, ?_⟩
+        · simp only [unsched]
+          rw [upd_del_tasks, del_tasks_filterMap, addChkpnt_tasks]
+          apply keyc
+          · simp [exitTask, hts, hit, hz]
+          · intro x h; simp [hts, h]
+        · simp [unsched, St.del, addChkpnt_children, St.upd]
+        · have := unsched_frame (({ s with children := kill s.children k } : St).upd { t with nsim := t.nsim - 1 })
+            { t with nsim := t.nsim - 1 }
+          exact ⟨this.me, this.users, this.now, this.nextSid, this.perseq, this.files, this.spawnFail⟩
+      · simp only [hit, hz, Bool.not_true, Bool.false_eq_true, if_false]
+        refine ⟨?_, rfl, ⟨rfl, rfl, rfl, rfl, rfl, rfl, rfl⟩⟩
+        rw [upd_tasks_filterMap]
+        apply keyc
+        · simp [exitTask, hts, hit, hz]
+        · intro x h; simp [hts, h]
+    · have hit' : t.inTable = false := by simpa using hit
+      by_cases hz : (t.nsim - 1 == 0) = true
+      · simp only [hit', hz, Bool.not_false, if_true]
+        refine ⟨?_, rfl, ⟨rfl, rfl, rfl, rfl, rfl, rfl, rfl⟩⟩
+        rw [del_tasks_filterMap]
+        apply keyc
+        · simp [exitTask, hts, hit', hz]
+        · intro x h; simp [hts, h]
+      · simp only [hit', hz, Bool.not_false, if_true, Bool.false_eq_true, if_false]
+        refine ⟨?_, rfl, ⟨rfl, rfl, rfl, rfl, rfl, rfl, rfl⟩⟩
+        rw [upd_tasks_filterMap]
+        apply keyc
+        · simp [exitTask, hts, hit', hz]
+        · intro x h; simp [hts, h]
 
 end Echse.Daemon
